@@ -156,9 +156,9 @@ def main(tier):
                        sample={"evaluator": ev, "aggregate": ctor})
         if ev == "eval_i64":
             g = m.tb.helper_term("gcd")
-            okg = g is not None and M(("seq", ("let", "?a", ("param", "?p1")), ("let", "?b", ("param", "?p2")), ("loop", ("if", ("op", "ne", "i64", ("var", "?b"), ("lit", "0", "i64")),
+            okg = g is not None and M(T.normalise(("seq", ("let", "?a", ("param", "?p1")), ("let", "?b", ("param", "?p2")), ("loop", ("if", ("op", "ne", "i64", ("var", "?b"), ("lit", "0", "i64")),
                                                                                                            ("seq", ("let", "?r", ("call", "i64::wrapping_rem", ("var", "?a"), ("var", "?b"))), ("set", ("var", "?a"), ("var", "?b")), ("set", ("var", "?b"), ("var", "?r"))), ("break",))),
-                                        ("call", "i64::checked_abs", ("var", "?a"))), g) is not None
+                                        ("call", "i64::checked_abs", ("var", "?a")))), g) is not None
             run.ob(okg, "euclid|gcd", "C11 gcd helper is Euclid's algorithm: while b != 0 { (a, b) := (b, a mod b) }; |a|", where(m, "::ast::gcd"), "" if okg else "transformer mismatch: " + T.show(g)[:300], sample={"helper": "gcd", "transformer": "(a, b) := (b, a % b); finish |a|"})
             l = m.tb.helper_term("lcm")
             okl = l is not None and M(("if", ("op", "or", "bool", ("op", "eq", "i64", ("param", "?p1"), ("lit", "0", "i64")), ("op", "eq", "i64", ("param", "?p2"), ("lit", "0", "i64"))), ("return", ("Some", ("lit", "0", "i64"))),
